@@ -6,6 +6,7 @@ use serde_json::{json, Value};
 use xplore::*;
 
 pub const Y_ALPHA: [f64; 5] = [0.0, 1.0, -2.0, 3.5, 1.000000001];
+pub const Y_ALPHA4: [f64; 4] = [0.0, 1.0, -2.0, 1.000000001];
 pub const DELTA: [f64; 3] = [0.0, 1e-9, -1e-12];
 pub const BASE_EVEN: [f64; 6] = [0.0, 1.0, 2.0, 3.0, 4.0, 5.0];
 pub const BASE_UNEVEN: [f64; 6] = [0.0, 0.5, 0.75, 3.0, 10.0, 10.125];
@@ -127,6 +128,11 @@ fn long_pattern(p: usize, i: usize, x: f64) -> f64 {
 pub fn pick_ordinates(cx: &mut Cx, xs: &[f64], reduced: bool) -> (Vec<f64>, &'static str) {
     let n = xs.len();
     if reduced {
+        if (n <= 4 || (n == 5 && cx.tier_thorough)) && cx.flag() {
+            // ordinates a few ulps apart (a noisy plateau), at three magnitudes
+            let base: f64 = [1.0, 1e9, -0.3][cx.choose(3)];
+            return ((0..n).map(|_| f64::from_bits(base.to_bits() + [0u64, 1, 5, 2][cx.choose(4)])).collect(), "alphabet");
+        }
         return ((0..n).map(|_| *cx.pick(&Y_ALPHA)).collect(), "alphabet");
     }
     if n > 6 {
@@ -145,7 +151,9 @@ pub fn pick_ordinates(cx: &mut Cx, xs: &[f64], reduced: bool) -> (Vec<f64>, &'st
         [1.0, 1e-3, 1e6, 8.673617379884035e-19][cx.choose(4)]
     };
     if fam == 0 {
-        ((0..n).map(|_| *cx.pick(&Y_ALPHA) * scale).collect(), "alphabet")
+        // (quick tier: lists of five knots take four of the five alphabet values - 1024 instead of 3125 vectors per list and scale)
+        let alpha: &[f64] = if n >= 5 && !cx.tier_thorough { &Y_ALPHA4 } else { &Y_ALPHA };
+        ((0..n).map(|_| *cx.pick(alpha) * scale).collect(), "alphabet")
     } else {
         ((0..n).map(|i| (2.0 * xs[i] + 1.0 + *cx.pick(&DELTA)) * scale).collect(), "near-collinear")
     }
